@@ -124,7 +124,7 @@ def make_cas(files, lead=128, gapflag=0):
     return casref.write(spec)
 
 
-def make_dsk(files, rnd, avoid_granule_zero=False):
+def make_dsk(files, rnd, avoid_granule_zero=False, holes=False):
     free = list(range(68))
     rnd.shuffle(free)
     if avoid_granule_zero:
@@ -138,6 +138,14 @@ def make_dsk(files, rnd, avoid_granule_zero=False):
         chains.append(free[:need])
         free = free[need:]
         spec.append(d)
+    if holes:
+        # killed files (first byte $00) in front of and between the live directory entries: the order of the live ones is kept
+        slots, cur = [], 0
+        for _ in spec:
+            cur += rnd.choice([0, 1, 1, 3])
+            slots.append(cur)
+            cur += 1
+        return dskref.write(spec, chains, slots=slots)
     return dskref.write(spec, chains)
 
 
